@@ -3,6 +3,7 @@ package rules
 import (
 	"go/constant"
 	"go/token"
+	"go/types"
 
 	"golang.org/x/tools/go/ssa"
 
@@ -13,7 +14,7 @@ import (
 // relGuard builds a guard "L rel R": it matches any comparison between a value
 // satisfying isL and a value satisfying isR (in either operand order) and
 // reports the edge on which the relation `rel` is implied (integers).
-func relGuard(name string, isL, isR func(ssa.Value) bool, rel token.Token) eng.NamedGuard {
+func relGuardExact(name string, isL, isR func(ssa.Value) bool, rel token.Token) eng.NamedGuard {
 	return eng.NamedGuard{Name: name, G: func(cd ir.Cond) (bool, bool) {
 		b, ok := cd.V.(*ssa.BinOp)
 		if !ok {
@@ -157,4 +158,111 @@ func isFieldOf(field string, isBase func(ssa.Value) bool) func(ssa.Value) bool {
 		base, f, ok := fieldLoad(ir.Strip(v))
 		return ok && f == field && (isBase == nil || isBase(base))
 	}
+}
+
+// relGuard: relGuardExact extended by the equivalent comparisons against
+// neighbouring integer constants — for integers x < k+1 ≡ x <= k and
+// x >= k+1 ≡ x > k, and for a non-negative left side (a len(), an unsigned value)
+// x < 1 ≡ x == 0 and x > 0 ≡ x >= 1 ≡ x != 0.  The right side's constant k is
+// discovered by probing isR with constants near the one in the code; the
+// implication "code's test ⇒ wanted relation" is decided by evaluating both
+// threshold predicates on a window of integers around the two constants (outside
+// the window both are constant).
+func relGuard(name string, isL, isR func(ssa.Value) bool, rel token.Token) eng.NamedGuard {
+	exact := relGuardExact(name, isL, isR, rel)
+	return eng.NamedGuard{Name: name, G: func(cd ir.Cond) (bool, bool) {
+		if ok, p := exact.G(cd); ok {
+			return ok, p
+		}
+		b, ok := cd.V.(*ssa.BinOp)
+		if !ok {
+			return false, false
+		}
+		var l, r ssa.Value
+		op := b.Op
+		switch {
+		case isL(b.X):
+			l, r = b.X, b.Y
+		case isL(b.Y):
+			l, r, op = b.Y, b.X, relMirror(b.Op)
+		default:
+			return false, false
+		}
+		c, isK := ir.ConstInt(r)
+		if !isK {
+			return false, false
+		}
+		rc, _ := r.(*ssa.Const)
+		if rc == nil {
+			return false, false
+		}
+		// which constant does the wanted relation use?
+		var k int64
+		found := false
+		for _, cand := range []int64{c - 1, c + 1} {
+			if isR(ssa.NewConst(constant.MakeInt64(cand), rc.Type())) {
+				k, found = cand, true
+			}
+		}
+		if !found {
+			return false, false
+		}
+		nonneg := false
+		if cl, isC := ir.Strip(l).(*ssa.Call); isC {
+			if bi, isB := cl.Common().Value.(*ssa.Builtin); isB && (bi.Name() == "len" || bi.Name() == "cap") {
+				nonneg = true
+			}
+		}
+		if bt, isB := l.Type().Underlying().(*types.Basic); isB && bt.Info()&types.IsUnsigned != 0 {
+			nonneg = true
+		}
+		eval := func(x int64, o token.Token, y int64) bool {
+			switch o {
+			case token.LSS:
+				return x < y
+			case token.LEQ:
+				return x <= y
+			case token.GTR:
+				return x > y
+			case token.GEQ:
+				return x >= y
+			case token.EQL:
+				return x == y
+			case token.NEQ:
+				return x != y
+			}
+			return false
+		}
+		lo, hi := c, k
+		if k < c {
+			lo, hi = k, c
+		}
+		impliesOn := func(holds bool) bool {
+			any := false
+			for x := lo - 3; x <= hi+3; x++ {
+				if nonneg && x < 0 {
+					continue
+				}
+				if eval(x, op, c) == holds {
+					any = true
+					if !eval(x, rel, k) {
+						return false
+					}
+				}
+			}
+			return any
+		}
+		switch op {
+		case token.LSS, token.LEQ, token.GTR, token.GEQ, token.EQL, token.NEQ:
+		default:
+			return false, false
+		}
+		if impliesOn(true) {
+			return true, true
+		}
+		if impliesOn(false) {
+			return true, false
+		}
+		return false, false
+	}}
 }
